@@ -575,6 +575,7 @@ class ClockTask():
     def _wakeup(self, time):
         try:
             _libsc3.main._update_logical_time(time)
+            _libsc3.main._in_awake_call = True
             beats = self.clock.secs2beats(time)
             delta = self.task.__awake__(self.clock)
             if isinstance(delta, (int, float)) and not isinstance(delta, bool):
@@ -589,6 +590,8 @@ class ClockTask():
                 '%s(%s) scheduled on ClockScheduler',
                 type(self.task).__name__, self.task.func.__qualname__,
                 exc_info=1)
+        finally:
+            _libsc3.main._in_awake_call = False
 
 
 ### Quant.sc ###
